@@ -120,7 +120,10 @@ def observe(dec, payload: bytes, own: int, message=None, twin=None, msgdesc: str
     else:
         o, v, steps = guarded(dec.decode_message_payload, payload)
     pair = ""
-    if twin is not None and message is not None:
+    readout = msgdesc.startswith("readout")
+    if twin is not None and message is not None and readout:
+        guarded(twin.decode_message_payload, payload)       # keep the twin's history in step; results differ by the identification fields
+    elif twin is not None and message is not None:
         o2, v2, _ = guarded(twin.decode_message_payload, payload)
         pair = "equal" if (o2 == o and v2 == v and prev_index(twin) == prev_index(dec)) else "differ"
     outcome = "hang" if o == "hang" else ("raised" if o == "raised" else ("dict" if isinstance(v, dict) else ("none" if v is None else "raised")))
@@ -128,7 +131,7 @@ def observe(dec, payload: bytes, own: int, message=None, twin=None, msgdesc: str
     same = [bool(outcome == "dict" and r is not None and r == v) for r in res]
     return {"acc": acc, "same": same, "outcome": outcome, "detail": detail or "", "prev_before": pb, "prev_after": prev_index(dec),
             "own": own, "pair": pair, "steps": steps, "n": len(payload), "payload": payload.hex(),
-            "form": "message" if message is not None else "payload", "msg": msgdesc or ("dlms" if message is not None else "")}
+            "form": "readout" if readout else ("message" if message is not None else "payload"), "msg": msgdesc or ("dlms" if message is not None else "")}
 
 
 def _limit_memory():
@@ -409,6 +412,17 @@ def run_c12(chk: Check) -> int:
     for tiny in (b"\x02\x00", b"\x02\x01\x0f\x05", b"\x02\x01\x00", b"\x01\x00"):
         hists.append([("tiny:" + tiny.hex(), tiny, 0, "dlms")])
         hists.append([gen[0] + (False,), ("tiny:" + tiny.hex(), tiny, 0, "dlms")])
+    # decode_message(DataReadout): accepted and rejected identification lines, fresh and after other messages; the remembered decoder may
+    # only change together with a non-None result
+    p1s = [g for g in gen if all(c < 128 for c in g[1]) and b"!" not in g[1] and g[2] != 0]
+    for g in p1s[:: (2 if quick else 1)]:
+        for ident in IDENTS:
+            d = "readout:" + ident.hex()
+            hists.append([g + (d,)])
+            hists.append([g + (d,), g + (False,)])
+            other = rng.choice([x for x in gen if x[2] not in (0, g[2])])
+            hists.append([other + (False,), g + (d,), other + (False,)])
+            hists.append([g + (False,), g + (d,), g + (d,)])
     for g in bnd:                   # boundary-valued genuine messages: fresh decoder, and after a same-meter message
         hists.append([g + (False,)])
         same = [x for x in gen if x[2] == g[2]]
@@ -432,7 +446,8 @@ def run_c12(chk: Check) -> int:
     return chk.finish(rule="model: all histories <=3 over all 2^7 acceptance vectors; spec->code: all 8 x 128 model transitions replayed with stub "
                            "decoders; code->spec: real decoders, pool of every captured message in frame and body form, P1 blocks, junk, truncations, "
                            "mutations; all histories of length <=2 (" + ("" if quick else "<=3 over a reduced pool, ") + "), random histories to "
-                           "30, same-meter histories; decode_message vs decode_message_payload in lockstep; each call judged by TLC; non-trivial = distinct history")
+                           "30, same-meter histories; decode_message vs decode_message_payload in lockstep; decode_message(DataReadout) with 7 identification lines "
+                           "(accepted and rejected); each call judged by TLC; non-trivial = distinct history")
 
 
 def replay_any(chk: Check, rp: dict, prefixes) -> int:
@@ -453,7 +468,7 @@ def replay_any(chk: Check, rp: dict, prefixes) -> int:
                 g = next((x for x in gen if x[2] == c["prev_before"]), None)
                 if g:
                     guarded(dec.decode_message_payload, g[1])
-            if c["form"] == "message":
+            if c["form"] in ("message", "readout"):
                 calls.append(observe(dec, payload, c["own"], message=message_from(c.get("msg", "dlms"), payload), msgdesc=c.get("msg", "dlms")))
             else:
                 calls.append(observe(dec, payload, c["own"]))
@@ -461,7 +476,7 @@ def replay_any(chk: Check, rp: dict, prefixes) -> int:
         dec, twin = AutoDecoder(), AutoDecoder()
         for c in t["calls"]:
             payload = bytes.fromhex(c["payload"])
-            if c["form"] == "message":
+            if c["form"] in ("message", "readout"):
                 calls.append(observe(dec, payload, c["own"], message=message_from(c.get("msg", "dlms"), payload), twin=twin, msgdesc=c.get("msg", "dlms")))
             else:
                 calls.append(observe(dec, payload, c["own"]))
@@ -508,6 +523,13 @@ def run_c15(chk: Check) -> int:
     for s in (b"1-0:99.97.0(2)(0-0:96.7.19)(170520130938S)(0000005627*s)\r\n", b"1.8.0(inf*kW)", b"1.8.0(nan*kW)", b"1.8.0(1e999*kWh)", b"1.0(5", b"1.0(5)xyz", b"1.0(5)x)", b"a*(", b"(" * 500, b")" * 500,
               b"1.8.0(" + b"9" * 5000 + b"*kWh)", b"1.8.0(1)" * 800, b"a(" * 700, b"1.0.0(999999999999)", b"1.0.0(21)", b"0-0:1.0.0(2101061607)"):
         items.append(("crafted", s))
+    # numeric literal forms Python's converters accept or nearly accept, under every unit class (exponents make big integers)
+    lits = ["1E9", "1e99", "1E999", "1E9999", "1E99999", "010E999976", "1E9999999", "1E-999999", "9" * 400, "0." + "0" * 400 + "1", "1_000", " 1", "+1", "-1",
+            "0x10", "1.", ".5", "Infinity", "-inf", "NaN", "1e", "e5", "1E+5", "١٢٣", "1,5", "--1", "1e-5", "00"]
+    for unit in ("*kWh", "*kW", "*kvarh", "*kvar", "*V", "*A", "*W", "*var", "*varh", "*Wh", "", "*s", "*m3"):
+        for lit in lits:
+            items.append(("crafted-number", f"1-0:1.8.0({lit}{unit})\r\n".encode()))
+            items.append(("crafted-number-in-block", f"1-0:32.7.0(230.1*V)\r\n1-0:1.8.0({lit}{unit})\r\n0-0:96.1.0(abc)\r\n".encode()))
     # minimal COSEM lists: every type tag as first / only element value, for every list grammar
     ob = bytes([9, 6, 1, 1, 1, 7, 0, 255])
     dt = bytes([9, 12, 7, 0xE6, 1, 1, 1, 0, 0, 0, 0xFF, 0x80, 0, 0])
@@ -541,7 +563,7 @@ def run_c15(chk: Check) -> int:
     return chk.finish(rule="model: parser termination for all lines <=7/8 over {a,(,),*} (action property pos' > pos), AutoDecoder with raising decoders; "
                            "spec->code: the spec's parse result for every such line replayed into parse_data_block; code->spec: every truncation and "
                            "1..5-octet mutation class (tags, lengths, OBIS, 0xFF date-times, deletions) of every captured message, random bytes, ASCII "
-                           "fragments, crafted values (inf/nan/1e999, unbalanced parentheses), each from several remembered-decoder states; outcome "
+                           "fragments, crafted values (28 numeric literal forms incl. 4..7-digit exponents x 13 units, unbalanced parentheses), each from several remembered-decoder states; outcome "
                            "must be dict or None; non-trivial = distinct input")
 
 
